@@ -153,7 +153,14 @@ class Core : public ResultCoreT<Type, Ret, E>, public FuncCore<Func> {
       return Done<SymmetricTransfer, true>(core.template MoveOrConst<!AsyncShared>());
     };
     if constexpr (IsRun(Type)) {
-      return async_done();
+      if constexpr (kAsync != AsyncType::None) {
+        if (this->_self.unwrapping != 0) {
+          return async_done();
+        }
+      }
+      // Not run yet: we are the head of a lazy pipeline that an outer step or a co_await starts right now
+      this->_executor->Submit(*this);
+      return Noop<SymmetricTransfer>();
     } else {
       if constexpr (kAsync != AsyncType::None) {
         if (this->_self.unwrapping != 0) {
@@ -280,8 +287,8 @@ class Core : public ResultCoreT<Type, Ret, E>, public FuncCore<Func> {
       auto* core = async.GetCore().Release();
       if constexpr (!IsRun(Type)) {
         this->_self.caller->DecRef();
-        this->_self.unwrapping = 1;
       }
+      this->_self.unwrapping = 1;
       this->_self.caller = core;
       this->_func.storage.~Storage();
       if constexpr (is_task_v<decltype(async)>) {
